@@ -52,15 +52,44 @@ func h(b []byte) string { s := sha256.Sum256(b); return hex.EncodeToString(s[:12
 // replayDigest runs the recorded blocks on a fresh chain instance.
 func replayDigest(c *c18case) (d digest, err error) { return replayDigestGas(c, nil, 0) }
 
+// txMemo makes a transaction decoder return the same decoded object for the same bytes: every execution of a
+// transaction (simulation, delivery, a second chain instance) then works on the very request values the previous one
+// worked on. A handler that writes into its request, or into slices cut from it, shows as a difference.
+type txMemo struct {
+	mu sync.Mutex
+	m  map[string]sdk.Tx
+}
+
+func (m *txMemo) wrap(dec sdk.TxDecoder) sdk.TxDecoder {
+	return func(bz []byte) (sdk.Tx, error) {
+		m.mu.Lock()
+		defer m.mu.Unlock()
+		if tx, ok := m.m[string(bz)]; ok {
+			return tx, nil
+		}
+		tx, err := dec(bz)
+		if err == nil {
+			m.m[string(bz)] = tx
+		}
+		return tx, err
+	}
+}
+
+func replayDigestShared(c *c18case, m *txMemo) (d digest, err error) { return replayDigestOpt(c, nil, 0, m.wrap) }
+
+func replayDigestGas(c *c18case, gas map[string]int64, slack uint64) (d digest, err error) {
+	return replayDigestOpt(c, gas, slack, nil)
+}
+
 // replayDigestGas: as replayDigest; with gas != nil every transaction runs under a gas limit of the gas it used
 // in that earlier replay plus slack (it needs no more, so nothing may change).
-func replayDigestGas(c *c18case, gas map[string]int64, slack uint64) (d digest, err error) {
+func replayDigestOpt(c *c18case, gas map[string]int64, slack uint64, wrap func(sdk.TxDecoder) sdk.TxDecoder) (d digest, err error) {
 	defer func() {
 		if r := recover(); r != nil {
 			err = fmt.Errorf("replay panicked: %v", r)
 		}
 	}()
-	w, err := sim.NewWorld(c.Gen)
+	w, err := sim.NewWorldDec(c.Gen, wrap)
 	if err != nil {
 		return d, err
 	}
@@ -308,6 +337,21 @@ func c18check(c *c18case, unrelated *c18case, concurrent int) *Viol {
 				return viol("C18", 0, "replay after an unrelated history in the same process differs", "byte-identical", d)
 			}
 		}
+	}
+	// the decoded transaction objects shared between simulation, delivery and a second instance: a replay is a
+	// replay whether or not the caller decodes the bytes again
+	memo := &txMemo{m: map[string]sdk.Tx{}}
+	for round := 1; round <= 2; round++ {
+		sd, err := replayDigestShared(c, memo)
+		if err != nil {
+			return viol("C18", 0, "replay with shared decoded transactions failed", "completes", err)
+		}
+		if d := firstDiff(ref, sd); d != "" {
+			return viol("C18", 0, fmt.Sprintf("replay %d that executes the same decoded transaction objects again (simulation, delivery, second instance) differs: a handler writes into its request", round), "byte-identical", d)
+		}
+	}
+	if v := genesisVerdictStable(c); v != nil {
+		return v
 	}
 	// metamorphic: every transaction under a gas limit of exactly what it used (and a little more): it needs no more,
 	// so nothing may change (a result that looks at the gas left, or at the limit, would)
@@ -745,4 +789,73 @@ func RunC18Child(t *testing.T) {
 	if err := os.WriteFile(os.Getenv("VERIF_C18_OUT"), ob, 0o644); err != nil {
 		t.Fatal(err)
 	}
+}
+
+// genesisVerdictStable: the verdict of genesis validation is a function of the document. The case's genesis and
+// variants of it that validation must refuse (one entry of a keyed list twice, a flag left out) are validated twice
+// in this process; both answers must be the same (the harness turns a panic into an error text).
+func genesisVerdictStable(c *c18case) *Viol {
+	cdc := chain.Codec()
+	base := c.Gen.ChainGenesis().Cctp
+	docs := []json.RawMessage{base}
+	variant := func(f func(gs *types.GenesisState) bool) {
+		var gs types.GenesisState
+		if err := cdc.UnmarshalJSON(base, &gs); err != nil {
+			return
+		}
+		if f(&gs) {
+			if bz, err := cdc.MarshalJSON(&gs); err == nil {
+				docs = append(docs, bz)
+			}
+		}
+	}
+	variant(func(gs *types.GenesisState) bool {
+		if len(gs.AttesterList) == 0 {
+			return false
+		}
+		gs.AttesterList = append(gs.AttesterList, gs.AttesterList[0])
+		return true
+	})
+	variant(func(gs *types.GenesisState) bool {
+		if len(gs.PerMessageBurnLimitList) == 0 {
+			return false
+		}
+		gs.PerMessageBurnLimitList = append(gs.PerMessageBurnLimitList, gs.PerMessageBurnLimitList[0])
+		return true
+	})
+	variant(func(gs *types.GenesisState) bool {
+		if len(gs.TokenPairList) == 0 {
+			return false
+		}
+		gs.TokenPairList = append(gs.TokenPairList, gs.TokenPairList[0])
+		return true
+	})
+	variant(func(gs *types.GenesisState) bool {
+		gs.UsedNoncesList = append(gs.UsedNoncesList, types.Nonce{SourceDomain: 3, Nonce: 9}, types.Nonce{SourceDomain: 3, Nonce: 9})
+		return true
+	})
+	variant(func(gs *types.GenesisState) bool {
+		if len(gs.TokenMessengerList) == 0 {
+			return false
+		}
+		gs.TokenMessengerList = append(gs.TokenMessengerList, gs.TokenMessengerList[0])
+		return true
+	})
+	variant(func(gs *types.GenesisState) bool { gs.BurningAndMintingPaused = nil; return true })
+	variant(func(gs *types.GenesisState) bool { gs.SendingAndReceivingMessagesPaused = nil; return true })
+	variant(func(gs *types.GenesisState) bool { gs.Owner = "not an address"; return true })
+	say := func(err error) string {
+		if err == nil {
+			return "accepted"
+		}
+		return "refused: " + err.Error()
+	}
+	for i, doc := range docs {
+		first := say(chain.ValidateGenesis(doc))
+		second := say(chain.ValidateGenesis(doc))
+		if first != second {
+			return viol("C18", 0, fmt.Sprintf("genesis validation answers differently the second time it sees the same document (variant %d: %s)", i, doc), first, second)
+		}
+	}
+	return nil
 }
